@@ -21,7 +21,8 @@ def run(ctx):
     ctx.prove(PROPS, extra_modules=MODULES)
     if ctx.build_harness("c02"):
         rep = ctx.harness("c02", ["run", ctx.seed, ctx.tier], timeout=3000)
-        if rep is not None:
+        if rep is not None and not any((v.get("input") or {}).get("kind") == "beh" for v in rep.get("impl_violations", [])):
+            # (when generated scripts already fail there is nothing to measure, and the violation stands)
             # the representation battery must REACH its class: among the pairs of equal
             # values compared as list elements whose bytes the host can see, some differ
             # in bytes outside the value (measured through the hook element_bytes)
